@@ -35,6 +35,7 @@ from typing import Any
 
 from happysimulator.core.entity import Entity
 from happysimulator.core.event import Event
+from happysimulator.core.sim_future import SimFuture
 
 logger = logging.getLogger(__name__)
 
@@ -206,10 +207,11 @@ class RWLock(Entity):
         self._read_contentions += 1
         enqueue_time = self._clock.now.nanoseconds if self._clock else 0
 
-        acquired = [False]
+        # Park on a future resolved by the wake-up (no zero-delay polling).
+        granted = SimFuture()
 
         def on_wake():
-            acquired[0] = True
+            granted.resolve(None)
 
         waiter = _Waiter(
             waiter_type=_WaiterType.READER,
@@ -218,8 +220,7 @@ class RWLock(Entity):
         )
         self._waiters.append(waiter)
 
-        while not acquired[0]:
-            yield 0.0
+        yield granted
 
         self._read_acquisitions += 1
 
@@ -243,10 +244,11 @@ class RWLock(Entity):
         self._write_contentions += 1
         enqueue_time = self._clock.now.nanoseconds if self._clock else 0
 
-        acquired = [False]
+        # Park on a future resolved by the wake-up (no zero-delay polling).
+        granted = SimFuture()
 
         def on_wake():
-            acquired[0] = True
+            granted.resolve(None)
 
         waiter = _Waiter(
             waiter_type=_WaiterType.WRITER,
@@ -255,8 +257,7 @@ class RWLock(Entity):
         )
         self._waiters.append(waiter)
 
-        while not acquired[0]:
-            yield 0.0
+        yield granted
 
         self._write_acquisitions += 1
 
